@@ -738,9 +738,25 @@ def c13_17(ctx):
 
 
 
+def _tree_cells(ctx):
+    if not hasattr(ctx, "_c13_15"):
+        ctx._c13_15 = c13_15(ctx)
+    return ctx._c13_15
+
+
+def _c13_3_deferring(ctx):
+    """one leaf per k-subset (COUNT over the generating loop); for multi_leaf_tree and musig_tree in another form the tree cells (C13.15: every
+    1 <= k <= n <= 5) decide"""
+    out = c13_3(ctx)
+    covered = [r for r in out if r.anchor.endswith(".multi_leaf_tree") or r.anchor.endswith(".musig_tree")]
+    rl.defer(ctx, covered, lambda: _tree_cells(ctx), "decided by the tree cells (C13.15: exactly one leaf per k-subset for every 1 <= k <= n <= 5 and every timelock); the generating loop is "
+             "not in the form this rule reads")
+    return out
+
+
 OBLIGATIONS = [
     ("C13.14", "CELLS nonce domain", c13_14),
-    ("C13.15", "CELLS tree generators", c13_15),
+    ("C13.15", "CELLS tree generators", _tree_cells),
     ("C13.17", "CELLS initialise histories", c13_17),
     ("C13.16", "CELLS tapscript witness", c13_16),
     ("C13.13", "SHARED", c13_13),
@@ -748,12 +764,13 @@ OBLIGATIONS = [
     ("C13.11", "MEMO", c13_11),
     ("C13.1", "ORDER", c13_1),
     ("C13.2", "GUARD", c13_2),
-    ("C13.3", "COUNT", c13_3),
+    ("C13.3", "COUNT", _c13_3_deferring),
     ("C13.4", "LAYOUT", c13_4),
     ("C13.5", "RANGE must-pass", c13_5),
     ("C13.6", "GUARD polarity", c13_6),
     ("C13.7", "IDENTITY", c13_7),
-    ("C13.8", "DATAFLOW", c13_8),
+    ("C13.8", "DATAFLOW", rl.deferring(c13_8, lambda ctx: c13_16(ctx), "tx:Tx.finalize_p2tr_multisig", "decided by the finalisation cells (C13.16 / C06.25: 64- and 65-byte signatures in any order are "
+                                       "matched with the digest of their own hash type); the verification call is not in the form the dataflow rule reads")),
     ("C13.9", "CELLS threshold domain", c13_9),
     ("C13.10", "CELLS formal sum", c13_10),
 ]
